@@ -211,6 +211,8 @@ impl<'a, R: Read> Scanner<'a, R> {
 
     /// Reads single char form input
     pub fn read(&mut self) -> Result<u8, Error> {
+        #[cfg(feature = "verif-hooks")]
+        crate::haystack::verif_hooks::tick(crate::haystack::verif_hooks::SITE_SCANNER_READ);
         if let Some(peek_bytes) = &mut self.next {
             self.cur = peek_bytes.remove(0);
             if peek_bytes.is_empty() {
